@@ -49,9 +49,13 @@ Inv(a) == Pow(a, Q - 2)
 InvTab == [d \in 1..32 |-> Inv(d)]          \* the denominators of Lagrange coefficients are small differences of evaluation points
 InvS(a) == IF a >= 1 /\ a <= 32 THEN InvTab[a] ELSE IF a >= Q - 32 THEN Neg(InvTab[Q - a]) ELSE Inv(a)
 
+\* TLC represents [i \in 1..n |-> e] as an unevaluated closure and re-evaluates e at EVERY application; concatenation with the empty
+\* sequence forces it into an evaluated tuple.  (Purely an evaluation-cost matter: V(f) = f.)
+V(f) == f \o <<>>
+
 RECURSIVE SumF(_, _)
 SumF(f, n) == IF n = 0 THEN 0 ELSE Add(SumF(f, n - 1), f[n])
-Sum(s) == SumF(s, Len(s))
+Sum(s) == LET t == V(s) IN SumF(t, Len(t))
 \* sum_{i <= Len(a)} a[i]*b[i]   (the Go loops run over the FIRST argument's length)
 Dot(a, b) == Sum([i \in 1..Len(a) |-> Mul(a[i], b[i])])
 
@@ -63,9 +67,9 @@ SwapSeq(s, i, j) == [s EXCEPT ![i] = s[j], ![j] = s[i]]
 -----------------------------------------------------------------------------
 \* mixing functions standing for SHA-256 / HashToZr / HashToG1 and for the random choices
 Mix(acc, x) == LET t == (acc + x + 1) % Q IN (Mul(Mul(t, t), t) + 12345) % Q      \* t -> t^3 is a permutation: gcd(3, Q-1) = 1
-RECURSIVE HashF(_, _, _)
-HashF(acc, s, k) == IF k > Len(s) THEN acc ELSE HashF(Mix(acc, s[k] % Q), s, k + 1)
-Hash(tag, s) == HashF(tag % Q, s, 1)
+RECURSIVE HashF(_, _, _, _)
+HashF(acc, s, k, n) == IF k > n THEN acc ELSE HashF(Mix(acc, s[k] % Q), s, k + 1, n)
+Hash(tag, s) == LET t == V(s) IN HashF(tag % Q, t, 1, Len(t))
 
 Seed(cs) == IF cs = 1 THEN 1009 ELSE 30011           \* the two constant sets
 Rnd(cs, s)   == Hash(Seed(cs), s)
@@ -95,7 +99,7 @@ Lagrange(i, pts) == LagF(i, pts, Len(pts))
 LagrangePanics(pts) == \E q \in 1..Len(pts) : \A k \in 1..Len(pts) : pts[k] = pts[q]
 
 \* sum_k vals[k] * lambda(pts[k]; pts): localAggregateSignatures (value index = POSITION in the list), Prover.ProveKnowledgeOfSignature
-Lams(pts) == [k \in 1..Len(pts) |-> Lagrange(pts[k], pts)]
+Lams(pts) == V([k \in 1..Len(pts) |-> Lagrange(pts[k], pts)])
 AggPos(vals, pts) == Dot(Lams(pts), vals)
 \* sum_k table[pts[k]] * lambda(pts[k]; pts): localAggregatePublicKeys / localAggregateECPoints (value index = evaluation point)
 AggAtL(table, pts, lam) == Sum([k \in 1..Len(pts) |-> Mul(table[pts[k]], lam[k])])
@@ -131,7 +135,7 @@ BlsSign(cs, sk, m) == Mul(HM(cs, m), sk)
 \* tbls.go localVerify: e(-g2, sig) * e(pk, H(m)) = 1
 BlsVerify(cs, pk, m, sig) == Add(Mul(Neg(1), sig), Mul(pk, HM(cs, m))) = 0
 
-BlsKeys(cs, se, n, t) == [p \in 1..n |-> ShareOf(cs, se, n, t, 0, p)]         \* sk of the party at position p; pk = g2^sk has the same dlog
+BlsKeys(cs, se, n, t) == V([p \in 1..n |-> ShareOf(cs, se, n, t, 0, p)])         \* sk of the party at position p; pk = g2^sk has the same dlog
 BlsTPK(cs, se, n, t)  == AggAt(BlsKeys(cs, se, n, t), [k \in 1..t |-> k])
 \* mpc.go KeyGen: every t-subset of the revealed public keys interpolates to the same threshold key
 BlsDkgOK(cs, se, n, t) == \A T \in TSubsets(n, t) : AggAt(BlsKeys(cs, se, n, t), T) = BlsTPK(cs, se, n, t)
@@ -147,11 +151,11 @@ BlsExpect(cs, c) ==
       Sx == CASE c.obj = "assign" /\ c.kind = "swap"  -> SwapSeq(S, c.i, c.j)
               [] c.obj = "assign" /\ c.kind = "shift" -> [q \in 1..Len(S) |-> ids[(pos(S[q]) % n) + 1]]
               [] OTHER -> S
-      shares0 == [q \in 1..Len(S) |-> BlsSign(cs, sk1[pos(S[q])], 1)]          \* TBLS.Sign of every signer in S on message 1
-      sharesX == [q \in 1..Len(S) |-> BlsSign(cs, sk2[pos(S[q])], 1)]          \* the same signers in another DKG session
+      shares0 == V([q \in 1..Len(S) |-> BlsSign(cs, sk1[pos(S[q])], 1)])          \* TBLS.Sign of every signer in S on message 1
+      sharesX == V([q \in 1..Len(S) |-> BlsSign(cs, sk2[pos(S[q])], 1)])          \* the same signers in another DKG session
       shares == IF c.obj = "share" THEN [shares0 EXCEPT ![c.who] = PertV(@, c.kind, sharesX[c.who])] ELSE shares0
-      pts == [q \in 1..Len(Sx) |-> pos(Sx[q])]
-      pts0 == [q \in 1..Len(S) |-> pos(S[q])]
+      pts == V([q \in 1..Len(Sx) |-> pos(Sx[q])])
+      pts0 == V([q \in 1..Len(S) |-> pos(S[q])])
       raw == c.obj = "fewer" /\ c.kind = "raw"                                \* a single share used as the threshold signature
       panics == ~raw /\ LagrangePanics(pts)
       agg0 == IF raw THEN shares[1] ELSE AggPos(shares, pts)
@@ -167,12 +171,12 @@ BlsExpect(cs, c) ==
 -----------------------------------------------------------------------------
 \* ------------------------------- PS -------------------------------------
 \* tps.go: secret key share of the party at position j: x and y_1..y_{L+1}; public key g2^x, g2^{y_k}
-PsSK(cs, se, n, t, L, j) == [x |-> ShareOf(cs, se, n, t, 0, j), ys |-> [k \in 1..(L + 1) |-> ShareOf(cs, se, n, t, k, j)]]
-PsPKof(cs, sk) == [X |-> Mul(G2E(cs), sk.x), Y |-> [k \in 1..Len(sk.ys) |-> Mul(G2E(cs), sk.ys[k])]]
+PsSK(cs, se, n, t, L, j) == [x |-> ShareOf(cs, se, n, t, 0, j), ys |-> V([k \in 1..(L + 1) |-> ShareOf(cs, se, n, t, k, j)])]
+PsPKof(cs, sk) == [X |-> Mul(G2E(cs), sk.x), Y |-> V([k \in 1..Len(sk.ys) |-> Mul(G2E(cs), sk.ys[k])])]
 \* tps.go localAggregatePublicKeys
 PsAggPK(pks, pts, nn) == LET lam == Lams(pts) IN
                          [X |-> AggAtL([p \in 1..Len(pks) |-> pks[p].X], pts, lam),
-                          Y |-> [k \in 1..nn |-> AggAtL([p \in 1..Len(pks) |-> pks[p].Y[k]], pts, lam)]]
+                          Y |-> V([k \in 1..nn |-> AggAtL([p \in 1..Len(pks) |-> pks[p].Y[k]], pts, lam)])]
 
 \* the Fiat-Shamir oracle of the request proof, EXACTLY as coded in randomOracleForBlindingProof: for i < n: d[i], f[i], a[i], b[i];
 \* then s, cm (the FULL commitment, including gs[n-1]^mPrime), g, g0, h, u.  The generators gs[] are NOT fed to the hash (the loop
@@ -194,21 +198,21 @@ PsBlind(cs, se, L, m) ==
       mP  == HZ(cs, cm0)
       cm  == Add(cm0, Mul(GS(cs, nn), mP))
       h   == HG(cs, cm)
-      msg == [i \in 1..nn |-> IF i <= L THEN m[i] ELSE mP]
-      r   == [i \in 1..nn |-> Rnd(cs, <<se, 3, i>>)]
-      a   == [i \in 1..nn |-> Mul(GG(cs), r[i])]
-      b   == [i \in 1..nn |-> Add(Mul(h, msg[i]), Mul(u, r[i]))]
-      al  == [i \in 1..nn |-> Rnd(cs, <<se, 4, i>>)]
-      be  == [i \in 1..nn |-> Rnd(cs, <<se, 5, i>>)]
+      msg == V([i \in 1..nn |-> IF i <= L THEN m[i] ELSE mP])
+      r   == V([i \in 1..nn |-> Rnd(cs, <<se, 3, i>>)])
+      a   == V([i \in 1..nn |-> Mul(GG(cs), r[i])])
+      b   == V([i \in 1..nn |-> Add(Mul(h, msg[i]), Mul(u, r[i]))])
+      al  == V([i \in 1..nn |-> Rnd(cs, <<se, 4, i>>)])
+      be  == V([i \in 1..nn |-> Rnd(cs, <<se, 5, i>>)])
       ga  == Rnd(cs, <<se, 2, 3>>)
       s   == Add(Mul(G0(cs), ga), Sum([i \in 1..nn |-> Mul(GS(cs, i), be[i])]))
-      d   == [i \in 1..nn |-> Add(Mul(h, be[i]), Mul(u, al[i]))]
-      f   == [i \in 1..nn |-> Mul(GG(cs), al[i])]
+      d   == V([i \in 1..nn |-> Add(Mul(h, be[i]), Mul(u, al[i]))])
+      f   == V([i \in 1..nn |-> Mul(GG(cs), al[i])])
       e   == RO1(cs, nn, d, f, s, a, b, cm, h, u)
   IN [req |-> [cm |-> cm0, mprime |-> mP, u |-> u, a |-> a, b |-> b, s |-> s, d |-> d, f |-> f,
                z |-> Add(ga, Mul(e, rcm)),
-               x |-> [i \in 1..nn |-> Add(al[i], Mul(e, r[i]))],
-               y |-> [i \in 1..nn |-> Add(be[i], Mul(e, msg[i]))]],
+               x |-> V([i \in 1..nn |-> Add(al[i], Mul(e, r[i]))]),
+               y |-> V([i \in 1..nn |-> Add(be[i], Mul(e, msg[i]))])],
       sec |-> [h |-> h, z |-> z, msg |-> msg]]
 
 \* ps.go SignBlindSignature + BlindCorrectFormProof.Verify.  mPrime and h are RECOMPUTED from req.cm (req.mprime is never read).
@@ -228,7 +232,7 @@ PsSignBlind(cs, L, req, sk) ==
       examined == IF bad1 # {} THEN 1..MinOf(bad1) ELSE 1..nn
   IN [ok |-> eq = "ok", eq |-> eq,
       sig |-> [a |-> Dot(req.a, sk.ys), b |-> Add(Mul(h, sk.x), Dot(req.b, sk.ys))],
-      after |-> [req EXCEPT !.d = [i \in 1..nn |-> IF i \in examined THEN Add(req.d[i], Mul(req.b[i], e)) ELSE req.d[i]]]]
+      after |-> [req EXCEPT !.d = V([i \in 1..nn |-> IF i \in examined THEN Add(req.d[i], Mul(req.b[i], e)) ELSE req.d[i]])]]
 
 \* ps.go UnBlind: hPrime = b - z*a;  e(g2^-1, hPrime) * e(X + sum Y_i m_i, h) = 1
 PsUnBlind(cs, pk, sig, sec) ==
@@ -242,7 +246,7 @@ PsPoK(cs, pr, pk, h, hP, msg) ==
       eps == RndNZ(cs, <<pr, 6, 1>>)
       del == Rnd(cs, <<pr, 6, 2>>)
       mu  == Rnd(cs, <<pr, 6, 3>>)
-      gam == [i \in 1..nn |-> Rnd(cs, <<pr, 7, i>>)]
+      gam == V([i \in 1..nn |-> Rnd(cs, <<pr, 7, i>>)])
       kappa == Add(Add(pk.X, Dot(pk.Y, msg)), Mul(G2E(cs), del))
       heps  == Mul(h, eps)
       nu    == Mul(heps, del)
@@ -250,7 +254,7 @@ PsPoK(cs, pr, pk, h, hP, msg) ==
       gamma == Add(Mul(G2E(cs), mu), Dot(pk.Y, gam))
       phi   == Mul(heps, mu)
       e     == RO2(cs, pk.Y, pk.X, gamma, phi, nu, heps, kappa)
-  IN [x |-> [i \in 1..nn |-> Add(gam[i], Mul(e, msg[i]))], y |-> Add(mu, Mul(e, del)),
+  IN [x |-> V([i \in 1..nn |-> Add(gam[i], Mul(e, msg[i]))]), y |-> Add(mu, Mul(e, del)),
       gamma |-> gamma, phi |-> phi, heps |-> heps, hpeps |-> hpeps, nu |-> nu, kappa |-> kappa]
 
 \* ps.go SigPoK.Verify: psi.Verify (checkcommitmentForm, then the nu equation), h^eps # 0, pairing condition
@@ -262,17 +266,17 @@ PsVerify(cs, pok, pk) ==
   IN IF ~okK THEN "EK" ELSE IF ~okN THEN "EN" ELSE IF pok.heps = 0 THEN "H0" ELSE IF ~okP THEN "PAIR" ELSE "ok"
 
 \* everything an honest session computes: DKG `se`, request `se`, signers S (party identifiers = evaluation points 1..n)
-PsSKs(cs, se, n, t, L) == [j \in 1..n |-> PsSK(cs, se, n, t, L, j)]
+PsSKs(cs, se, n, t, L) == V([j \in 1..n |-> PsSK(cs, se, n, t, L, j)])
 PsSession(cs, se, n, t, L, S, m) ==
   LET nn == L + 1
       sks == PsSKs(cs, se, n, t, L)
-      pks == [j \in 1..n |-> PsPKof(cs, sks[j])]
+      pks == V([j \in 1..n |-> PsPKof(cs, sks[j])])
       bl  == PsBlind(cs, se, L, m)
-      sg  == [q \in 1..Len(S) |-> PsSignBlind(cs, L, bl.req, sks[S[q]])]
+      sg  == V([q \in 1..Len(S) |-> PsSignBlind(cs, L, bl.req, sks[S[q]])])
   IN [sks |-> sks, pks |-> pks, tpk |-> PsAggPK(pks, [k \in 1..t |-> k], nn), bl |-> bl, sg |-> sg,
-      ub |-> [q \in 1..Len(S) |-> PsUnBlind(cs, pks[S[q]], sg[q].sig, bl.sec)]]
+      ub |-> V([q \in 1..Len(S) |-> PsUnBlind(cs, pks[S[q]], sg[q].sig, bl.sec)])]
 \* tps.go KeyGen: every t-subset of the revealed public keys interpolates to the same threshold key
-PsDkgOK(cs, se, n, t, L) == LET pks == [j \in 1..n |-> PsPKof(cs, PsSK(cs, se, n, t, L, j))]
+PsDkgOK(cs, se, n, t, L) == LET pks == V([j \in 1..n |-> PsPKof(cs, PsSK(cs, se, n, t, L, j))])
                                 tpk == PsAggPK(pks, [k \in 1..t |-> k], L + 1) IN
                             \A T \in TSubsets(n, t) : PsAggPK(pks, T, L + 1) = tpk
 
@@ -280,19 +284,19 @@ PsProofOf(cs, pr, tpk, sec, wits, signers) == PsPoK(cs, pr, tpk, sec.h, AggPos(w
 
 PsExpect(cs, c) ==
   LET n == c.n  t == c.t  L == c.L  S == c.S  nn == c.L + 1
-      m  == [i \in 1..L |-> Alpha(cs, c.mv[i])]
+      m  == V([i \in 1..L |-> Alpha(cs, c.mv[i])])
       \* session 1, piecewise (TLC evaluates LET definitions lazily: only what the case needs is computed)
       sks1 == PsSKs(cs, 1, n, t, L)
-      pks1 == [j \in 1..n |-> PsPKof(cs, sks1[j])]
+      pks1 == V([j \in 1..n |-> PsPKof(cs, sks1[j])])
       tpk1 == PsAggPK(pks1, [k \in 1..t |-> k], nn)
       bl1  == PsBlind(cs, 1, L, m)
-      sg1  == [q \in 1..Len(S) |-> PsSignBlind(cs, L, bl1.req, sks1[S[q]])]
-      ub1  == [q \in 1..Len(S) |-> PsUnBlind(cs, pks1[S[q]], sg1[q].sig, bl1.sec)]
+      sg1  == V([q \in 1..Len(S) |-> PsSignBlind(cs, L, bl1.req, sks1[S[q]])])
+      ub1  == V([q \in 1..Len(S) |-> PsUnBlind(cs, pks1[S[q]], sg1[q].sig, bl1.sec)])
       s2 == PsSession(cs, 2, n, t, L, S, m)              \* another DKG, another request, another proof (only for cross-session kinds)
       req0 == bl1.req
       sec  == bl1.sec
-      wits0 == [q \in 1..Len(S) |-> ub1[q].w]
-      wits2 == [q \in 1..Len(S) |-> s2.ub[q].w]
+      wits0 == V([q \in 1..Len(S) |-> ub1[q].w])
+      wits2 == V([q \in 1..Len(S) |-> s2.ub[q].w])
       pok0  == PsProofOf(cs, 1, tpk1, sec, wits0, S)
       ver(pok, key) == LET r == PsVerify(cs, pok, key) IN
                        Res(IF r = "ok" THEN "accept" ELSE "reject", "verify", r, TRUE)
